@@ -601,4 +601,132 @@ theorem prep_safe (n : Nat) (ih : AllSpec n) (ihs : SSpec n) (args : List Expr) 
       · simp only [hl, if_false] at hex
         exact evalStep r s' hex
 
+/-! ## `callUser`, `callResolved`, `exec` -/
+
+theorem user_safe (n : Nat) (ih : AllSpec n) (ihs : SSpec n) (name : String) (k : Nat) (s : St) (tail : List Cell) (hg : NoNil s)
+    (hw : WF s) (hd : s.data.map cellOf = List.replicate k .val ++ tail) : Safe (callUser (n + 1) name k) s := by
+  intro r s' hex
+  unfold VM.callUser at hex
+  rw [run_bind, run_get] at hex
+  dsimp only at hex
+  by_cases h0 : s.data.length < k
+  · simp only [h0, if_true, run_bind, Sim.run_err] at hex; cases hex; exact res_err
+  · have h00 : ¬ (s.data.take k).any Option.isNone = true := by
+      rw [VMSafe.any_isNone_false (VMSafe.allSome_take hg.good.data k)]; simp
+    simp only [h0, h00, if_false, run_bind, run_pure, Bool.false_eq_true] at hex
+    rw [run_popN] at hex
+    simp only [h0, if_false] at hex
+    cases hm : (s.data.take k).mapM id with
+    | none =>
+      exfalso
+      obtain ⟨vs, hvs⟩ := VMSafe.mapM_id_some _ (VMSafe.allSome_take hg.good.data k)
+      rw [hvs] at hm; cases hm
+    | some vs =>
+      rw [hm] at hex
+      simp only [run_capture, run_modify, run_get, run_set] at hex
+      have htake : (s.data.take k).map cellOf = List.replicate k Cell.val := by
+        rw [List.map_take, hd, List.take_left' (by simp)]
+      have hvs : ∀ v ∈ vs, vok s.fns.length v = true := by
+        apply vals_vok _ vs hm (fun c hcm => hw.data c (List.mem_of_mem_take hcm))
+        intro c hcm
+        rw [htake] at hcm
+        exact List.eq_of_mem_replicate hcm
+      let s2 : St := { s with data := s.data.drop k, addr := some (s.curfunc, s.pc + 1) :: s.addr, curfunc := builtinFn, pc := -1 }
+      have hw2 : WF s2 :=
+        hw.mk' (TExt.same rfl rfl) (fun j h1 h2 => absurd h2 (Nat.not_lt.mpr h1)) hw.loopstack hw.scopes hw.heap hw.lazies
+          (fun c hcm => hw.data c (List.mem_of_mem_drop hcm))
+      have hg2 : NoNil s2 :=
+        ⟨⟨VMSafe.allSome_drop hg.good.data k, hg.good.linear, VMSafe.allSome_cons hg.good.addr, hg.good.susp, hg.good.lazies⟩, hg.lin, hg.lz⟩
+      rcases hb : (builtin n name vs.reverse).run s2 with ⟨r1, s3⟩
+      have hb' : (builtin n name vs.reverse).run
+          { s with data := s.data.drop k, addr := some (s.curfunc, s.pc + 1) :: s.addr, curfunc := builtinFn, pc := -1 } = (r1, s3) := hb
+      rw [hb'] at hex
+      obtain ⟨hnp, hg3⟩ := ihs.builtin name vs.reverse s2 hg2 hw2 rfl (fun a ha => hvs a (List.mem_reverse.mp ha)) r1 s3 hb
+      cases r1 with
+      | error e =>
+        cases e with
+        | err => simp only [run_bind, run_restore, run_throw] at hex; cases hex; exact res_err
+        | panic => exact absurd rfl hnp
+        | timeout => simp only [run_throw] at hex; cases hex; exact res_timeout
+      | ok v =>
+        obtain ⟨hk, hv⟩ := ih.builtin name vs.reverse s2 s3 v hw2 rfl (fun a ha => hvs a (List.mem_reverse.mp ha)) hb
+        simp only [run_bind, run_pushData, run_get] at hex
+        have ha3 : s3.addr = some (s.curfunc, s.pc + 1) :: s.addr := hk.same.addr
+        have hgt : (captureOf { s with data := s.data.drop k }).addrSize < (some (s.curfunc, s.pc + 1) :: s.addr).length := by
+          show s.addr.length < (some (s.curfunc, s.pc + 1) :: s.addr).length; simp
+        simp only [ha3] at hex
+        rw [if_pos hgt] at hex
+        simp only [run_set] at hex
+        cases hex
+        have h3 := hg3 v rfl
+        refine res_ok _ ⟨⟨VMSafe.allSome_cons h3.good.data, h3.good.linear, ?_, h3.good.susp, h3.good.lazies⟩, h3.lin, h3.lz⟩
+        show VMSafe.allSome s.addr
+        exact hg.good.addr
+
+theorem guarded_safe (start : Nat) (m : M Unit) (s : St) (hm : Safe m s) :
+    Safe (do
+      let s ← get
+      let r : Except Fault Unit × St := m.run s
+      set r.2
+      match r.1 with
+      | .ok _ => pure ()
+      | .error .err => do modify (fun s => { s with data := truncate s.data start }); throw .err
+      | .error flt => throw flt : M Unit) s := by
+  intro r s' h
+  simp only [run_bind, run_get, run_set] at h
+  rcases hr : m.run s with ⟨r1, s1⟩
+  rw [hr] at h
+  obtain ⟨hn, hg⟩ := hm r1 s1 hr
+  cases r1 with
+  | ok u => simp only [run_pure] at h; cases h; exact res_ok _ (hg u rfl)
+  | error e =>
+    cases e with
+    | err => simp only [run_bind, run_modify, run_throw] at h; cases h; exact res_err
+    | panic => exact absurd rfl hn
+    | timeout => simp only [run_throw] at h; cases h; exact res_timeout
+
+theorem resolved_safe (n : Nat) (ih : AllSpec n) (ihs : SSpec n) (s : St) (f : Val) (args : List Expr) (hg : NoNil s) (hw : WF s)
+    (hvf : vok s.fns.length f = true) (hoa : okLs args = true) : Safe (callResolved (n + 1) f args) s := by
+  intro r s' hex
+  unfold VM.callResolved at hex
+  rw [run_bind, run_get] at hex
+  dsimp only at hex
+  split at hex
+  · rename_i fid
+    refine guarded_safe _ _ s (Safe.bind (ihs.prep _ _ _ s hg hw hoa) (fun _ s1 _ hg1 => callFunction_safe' _ _ s1 hg1)) r s' hex
+  · rename_i name
+    refine guarded_safe _ _ s (Safe.bind (ihs.prep _ _ _ s hg hw hoa) (fun _ s1 hp hg1 => ?_)) r s' hex
+    obtain ⟨hw1, he1, hd1, _⟩ := ih.prep _ _ _ s s1 hw hoa hp
+    exact ihs.user name args.length s1 (s.data.map cellOf) hg1 hw1 hd1
+  · refine guarded_safe _ _ s (Safe.bind (ihs.prep _ _ _ s hg hw hoa) (fun _ s1 _ _ => Safe.err s1)) r s' hex
+  · split at hex
+    · simp only [run_bind, run_pushData, run_incPc] at hex
+      cases hex
+      exact res_ok _ ((hg.push f).same rfl rfl rfl rfl rfl)
+    · rw [Sim.run_err] at hex; cases hex; exact res_err
+
+theorem exec_safe (n : Nat) (ih : AllSpec n) (ihs : SSpec n) (b : Base) (s : St) (top : Act) (rest : List Act) (i : Instr)
+    (hg : NoNil s) (hw : WF s) (hr : Running b s top rest) (hbl : b.linear ≠ [])
+    (hf : (fnOf s s.curfunc).code[s.pc.toNat]? = some i) : Safe (exec (n + 1) i) s := by
+  by_cases hs : simple i = true
+  · intro r s' hex
+    obtain ⟨h1, h2⟩ := exec_simple_safe hg hr hbl hf hs n
+    rw [hex] at h1 h2
+    exact ⟨h1, fun _ _ => h2⟩
+  · cases i with
+    | callArr k =>
+      intro r s' hex
+      simp only [exec] at hex
+      obtain ⟨tail, ht⟩ := hr.top_vals hf (p := k) (m := 1) rfl
+      exact ihs.user "array" k s tail hg hw ht r s' hex
+    | callExpr c args =>
+      have hio := hr.instrOK hf
+      simp only [instrOK, Bool.and_eq_true] at hio
+      intro r s' hex
+      simp only [exec] at hex
+      refine Safe.bind (ihs.eval c s hg hw hio.1) (fun f s1 hev hg1 => ?_) r s' hex
+      obtain ⟨hk, hv⟩ := ih.eval c s s1 f hw hio.1 hev
+      exact ihs.resolved s1 f args hg1 hk.wf hv hio.2
+    | _ => exact absurd rfl hs
+
 end ZygoVerif.RunInv
